@@ -51,6 +51,9 @@ def run(ctx):
     methods = repo.nmethods(LI, 'LocalInference')
     setup = find_setup(repo, LI, 'LocalInference')
 
+    check_grouping(ctx, setup)
+    check_gbp_schedule(ctx)
+
     # ---- dispatch: oracle name -> constructed class --------------------------------------
     dispatch = {}
     for s in ast.walk(setup.node):
@@ -425,3 +428,100 @@ def check_outer_regions(ctx):
                if not strict else 'cliques are dropped only when properly contained in another one', construct='maximality filter of the outer regions')
     if n == 0:
         raise AnalysisError('RegionGraph.__init__: the maximality filter of the non-convex oracle was not found')
+
+
+def check_grouping(ctx, setup):
+    """every measurement is attached to a clique of the MODEL (the keys the loss iterates over): a measurement attached to anything else
+    is silently left out of the objective"""
+    from ..normalise import normalised
+    from .C04 import find_search, normalise_seq, is_subset
+    nsetup = normalised(ctx.repo, setup)
+    sr = find_search(nsetup)
+    seq = normalise_seq(nsetup, sr['seq'], nsetup)
+    core = seq
+    import re
+    m = re.fullmatch(r'(?:sorted|list|tuple)\((.*?)(?:,key=.*)?\)', seq)
+    if m:
+        core = m.group(1)
+    ok = core in ('self.model.cliques', 'self.model.potentials', 'self.model.potentials.keys()', 'list(self.model.cliques)')
+    ctx.ob('groups-over-model-cliques', nsetup, sr['inner'], ok,
+           'the clique a measurement is attached to must be searched among the cliques of the model just built (self.model.cliques): the loss '
+           'only visits those, so a measurement attached elsewhere is ignored; the search runs over `%s`' % seq,
+           construct='clique sequence of the measurement grouping')
+    proj, cl = sr['proj'], sr['cl']
+    if sr['kind'] == 'loop':
+        ctx.ob('groups-over-model-cliques', nsetup, sr['test'], bool(is_subset(sr['test'].test, proj, cl)),
+               'a measurement is attached to a clique that contains its attributes: set(%s) <= set(%s)' % (proj, cl), construct='containment test of the grouping')
+    else:
+        ctx.ob('groups-over-model-cliques', nsetup, sr['inner'], bool(is_subset(sr['test'], proj, sr['genvar'])),
+               'a measurement is attached to a clique that contains its attributes', construct='containment test of the grouping')
+
+
+def check_gbp_schedule(ctx):
+    """generalized_belief_propagation computes new[ru, rd] from messages of the SAME sweep on edges below ru (self.D): those must come
+    earlier in message_order, i.e. the schedule visits a region after all of its descendants"""
+    RG = 'src/mbi/region_graph.py'
+    fi = ctx.repo.nfunc(RG, 'RegionGraph.build_graph')
+    ctx.analysed(fi)
+    loops = [n for n in ast.walk(fi.node) if isinstance(n, ast.For) and any(
+        isinstance(c, ast.Call) and isinstance(c.func, ast.Attribute) and c.func.attr == 'append' and U(c.func.value) == 'self.message_order'
+        for c in ast.walk(n))]
+    outer = [l for l in loops if not any(l is not o and l in list(ast.walk(o)) for o in loops)]
+    if len(outer) != 1:
+        raise AnalysisError('build_graph: the loop that fills self.message_order was not found')
+    loop = outer[0]
+    inner = [n for n in loop.body if isinstance(n, ast.For)]
+    ru = U(loop.target)
+    if len(inner) != 1 or U(inner[0].iter).replace(' ', '') != 'self.children[%s]' % ru:
+        raise AnalysisError('build_graph: the schedule does not enumerate (region, child) pairs region by region')
+    # which graph is the downward one (parent -> child): the one self.children is read from
+    down, up = set(), set()
+    for n in ast.walk(fi.node):
+        if isinstance(n, ast.Assign) and any(U(t) == 'self.children' for t in n.targets):
+            for c in ast.walk(n.value):
+                if isinstance(c, ast.Call) and isinstance(c.func, ast.Attribute) and c.func.attr in ('neighbors', 'successors') and isinstance(c.func.value, ast.Name):
+                    down.add(c.func.value.id)
+    for n in ast.walk(fi.node):
+        if isinstance(n, ast.Assign) and len(n.targets) == 1 and isinstance(n.targets[0], ast.Name) and isinstance(n.value, ast.Call) \
+                and isinstance(n.value.func, ast.Attribute) and n.value.func.attr == 'reverse' and U(n.value.func.value) in down:
+            up.add(n.targets[0].id)
+    # every other definition of an `up` name disqualifies it
+    for n in ast.walk(fi.node):
+        if isinstance(n, ast.Assign):
+            for t in n.targets:
+                if isinstance(t, ast.Name) and t.id in up and not (isinstance(n.value, ast.Call) and isinstance(n.value.func, ast.Attribute)
+                                                                    and n.value.func.attr == 'reverse' and U(n.value.func.value) in down):
+                    up.discard(t.id)
+    it = loop.iter
+    verdict = None
+    how = U(it)
+
+    def topo_of(e):
+        if isinstance(e, ast.Call) and U(e.func).split('.')[-1] in ('topological_sort', 'lexicographical_topological_sort') and e.args \
+                and isinstance(e.args[0], ast.Name):
+            return e.args[0].id
+        return None
+    e = it
+    flipped = False
+    while isinstance(e, ast.Call) and isinstance(e.func, ast.Name) and e.func.id in ('list', 'tuple', 'reversed') and len(e.args) == 1:
+        if e.func.id == 'reversed':
+            flipped = not flipped
+        e = e.args[0]
+    g = topo_of(e)
+    if g is not None:
+        if g in up:
+            verdict = not flipped
+        elif g in down:
+            verdict = flipped
+    elif isinstance(e, ast.Call) and isinstance(e.func, ast.Name) and e.func.id == 'sorted' and e.args:
+        key = [k.value for k in e.keywords if k.arg == 'key']
+        rev = [k.value for k in e.keywords if k.arg == 'reverse']
+        if len(key) == 1 and U(key[0]) == 'len' and all(isinstance(r, ast.Constant) for r in rev):
+            r = bool(rev and rev[0].value)
+            verdict = (not r) != flipped          # a sub-region is strictly shorter than the regions above it
+    if verdict is None:
+        raise AnalysisError('build_graph: the order `%s` of the message schedule is in no recognised form' % how)
+    ctx.ob('gbp-schedule', fi, loop, verdict,
+           'the message schedule must visit a region after all of its descendants (ascending size, or a topological order of the REVERSED '
+           'region graph): messages of the same sweep on edges below a region are read when its own messages are computed; the order is `%s`%s'
+           % (how, '' if verdict else ' - ancestors first, so those messages are read before they exist'), construct='order of the message schedule')
